@@ -17,6 +17,7 @@ import SpsdkVerif.Model.SymWrappers
 import SpsdkVerif.Proofs.Crypto
 import SpsdkVerif.Proofs.SymWrappers
 import SpsdkVerif.Proofs.ExecLaws
+import SpsdkVerif.Proofs.Crc
 
 namespace SpsdkVerif.C09
 open SpsdkVerif SpsdkVerif.Crypto SpsdkVerif.SymWrappers SpsdkVerif.Generated
@@ -410,6 +411,216 @@ theorem sb31_derive_key (h : CryptoLaws c) (key : Bytes) (dc rights : Nat) (mode
   · simp [deriveKey, e1', cmacW, hkey]
   · simp [deriveKey, e2', e3', cmacW, hkey]
   · simp [cmac_length h]
+
+/-! ## Part F — the three CRCs of `CRC_ALGORITHMS` equal their reference (polynomial) definition -/
+
+/-- what the proofs need from a row of the generated table: ≥ 8 bits wide, truncated polynomial and initial register
+    in range, constant term 1, and `G(x)` is the polynomial exactly as written in the source (with its leading term) -/
+theorem crc_table_wf : ∀ e ∈ CrcTable.table,
+    8 ≤ (crcParams e.2.2).width ∧ (crcParams e.2.2).poly < 2 ^ (crcParams e.2.2).width ∧
+    (crcParams e.2.2).init < 2 ^ (crcParams e.2.2).width ∧ (crcParams e.2.2).poly % 2 = 1 ∧
+    Crc.gen (crcParams e.2.2) = e.2.2.polynomial := by decide
+
+theorem crcLookup_mem {name : String} {cfg : CrcTable.CrcConfig} (h : crcLookup name = some cfg) :
+    ∃ e ∈ CrcTable.table, e.2.2 = cfg := by
+  simp only [crcLookup, Option.map_eq_some_iff] at h
+  obtain ⟨e, he, rfl⟩ := h
+  exact ⟨e, List.mem_of_find?_eq_some he, rfl⟩
+
+/-- **`crc_generic_spec`**: for each algorithm of the table, every message `d`: the shift register computed bit by bit
+    is THE polynomial of degree < width congruent to `init·x^(8|d|) + M(x)·x^width` modulo the generator polynomial
+    written in the source, in GF(2)[x] (`M` = the message, bytes bit-reversed for the reflected CRC-32); the CRC is that
+    remainder, bit-reversed for CRC-32, xor the final value. -/
+theorem crc_generic_spec (name : String) (cfg : CrcTable.CrcConfig) (h : crcLookup name = some cfg) (d : Bytes) :
+    Crc.register (crcParams cfg) d < 2 ^ (crcParams cfg).width ∧
+    Crc.CongrMod cfg.polynomial
+      (((crcParams cfg).init <<< (8 * d.length)) ^^^ (Crc.msgPoly (crcParams cfg) d <<< (crcParams cfg).width))
+      (Crc.register (crcParams cfg) d) ∧
+    (∀ r, r < 2 ^ (crcParams cfg).width →
+      Crc.CongrMod cfg.polynomial
+        (((crcParams cfg).init <<< (8 * d.length)) ^^^ (Crc.msgPoly (crcParams cfg) d <<< (crcParams cfg).width)) r →
+      r = Crc.register (crcParams cfg) d) ∧
+    crcCalculate name d = .ok ((if cfg.reverse then Crc.reflect (crcParams cfg).width (Crc.register (crcParams cfg) d)
+      else Crc.register (crcParams cfg) d) ^^^ cfg.finalXor) := by
+  obtain ⟨e, he, rfl⟩ := crcLookup_mem h
+  obtain ⟨w8, hp, hi, _, hg⟩ := crc_table_wf e he
+  have wf : Crc.WF (crcParams e.2.2) := ⟨w8, hp⟩
+  rw [← hg]
+  refine ⟨Crc.registerFrom_lt wf d _ hi, Crc.registerFrom_congr wf d _ hi,
+    fun r hr hc => Crc.registerFrom_unique wf d _ r hi hr hc, ?_⟩
+  simp only [crcCalculate, h, Crc.crc]
+  rfl
+
+/-- without reflection (XMODEM, MPEG-2) the message polynomial is simply the big-endian integer of the message -/
+theorem crc_msgPoly_plain (cfg : CrcTable.CrcConfig) (hr : cfg.reverse = false) (d : Bytes) :
+    Crc.msgPoly (crcParams cfg) d = beDec d :=
+  Crc.msgPoly_eq_beDec _ hr d
+
+/-- **single-byte error detection** for all three algorithms (`crc16_burst` is the XMODEM instance):
+    two messages that differ in exactly one byte never have the same CRC -/
+theorem crc_burst (name : String) (cfg : CrcTable.CrcConfig) (h : crcLookup name = some cfg)
+    (pre suf : Bytes) (x y : UInt8) (hxy : x ≠ y) :
+    crcCalculate name (pre ++ x :: suf) ≠ crcCalculate name (pre ++ y :: suf) := by
+  obtain ⟨e, he, rfl⟩ := crcLookup_mem h
+  obtain ⟨w8, hp, hi, hodd, _⟩ := crc_table_wf e he
+  simp only [crcCalculate, h]
+  intro heq
+  exact Crc.crc_burst ⟨w8, hp⟩ hodd hi pre suf x y hxy (by injection heq)
+
+theorem crc16_burst (pre suf : Bytes) (x y : UInt8) (hxy : x ≠ y) :
+    Crc.crc Crc.crc16Xmodem (pre ++ x :: suf) ≠ Crc.crc Crc.crc16Xmodem (pre ++ y :: suf) :=
+  Crc.crc_burst Crc.wf_crc16Xmodem (by decide) (by decide) pre suf x y hxy
+
+/-- all three are affine maps of the message; CRC-16/XMODEM (zero init, zero xor-out) is linear -/
+theorem crc_affine (name : String) (cfg : CrcTable.CrcConfig) (h : crcLookup name = some cfg) (a b c : Bytes)
+    (h1 : a.length = b.length) (h2 : b.length = c.length) :
+    Crc.crc (crcParams cfg) (xorBytes (xorBytes a b) c) =
+      Crc.crc (crcParams cfg) a ^^^ Crc.crc (crcParams cfg) b ^^^ Crc.crc (crcParams cfg) c := by
+  obtain ⟨e, he, rfl⟩ := crcLookup_mem h
+  obtain ⟨w8, hp, hi, _, _⟩ := crc_table_wf e he
+  exact Crc.crc_affine ⟨w8, hp⟩ hi a b c h1 h2
+
+theorem crc16_linear (a b : Bytes) (hl : a.length = b.length) :
+    Crc.crc Crc.crc16Xmodem (xorBytes a b) = Crc.crc Crc.crc16Xmodem a ^^^ Crc.crc Crc.crc16Xmodem b :=
+  Crc.crc16Xmodem_xor a b hl
+
+/-- **residues**: a message followed by its own CRC (big-endian for XMODEM / MPEG-2, little-endian for CRC-32) checks to a
+    constant: 0, 0 and 0x2144DF1C — the receiver-side test "CRC over data ‖ CRC" used by frame formats -/
+theorem crc_residues (m : Bytes) :
+    Crc.crc Crc.crc16Xmodem (m ++ beEnc 2 (Crc.crc Crc.crc16Xmodem m)) = 0 ∧
+    Crc.crc Crc.crc32Mpeg2 (m ++ beEnc 4 (Crc.crc Crc.crc32Mpeg2 m)) = 0 ∧
+    Crc.crc Crc.crc32 (m ++ leEnc 4 (Crc.crc Crc.crc32 m)) = 0x2144DF1C :=
+  ⟨Crc.crc_append_self_zero Crc.wf_crc16Xmodem (by decide) rfl rfl rfl 2 rfl m,
+   Crc.crc_append_self_zero Crc.wf_crc32Mpeg2 (by decide) rfl rfl rfl 4 rfl m,
+   Crc.crc32_residue m⟩
+
+/-! ## Part G — more structure of the hash / MAC / KDF glue, and negative statements as reductions to a break -/
+
+/-- `Hash(alg)`, any number of `update` calls, `finalize` = the one-shot `get_hash` of the concatenation — for every
+    way of splitting a message (the library's streaming object is tied to this by the correspondence sweep over all
+    splits of short messages) -/
+theorem hash_stream_eq_oneshot (a : HashAlg) (parts : List Bytes) :
+    (parts.foldl HashObj.update (HashObj.new a)).finalize c = getHash c a parts.flatten := by
+  suffices h : ∀ (o : HashObj), (parts.foldl HashObj.update o).finalize c = c.hash o.alg (o.data ++ parts.flatten) by
+    simpa [HashObj.new, getHash] using h (HashObj.new a)
+  induction parts with
+  | nil => intro o; simp [HashObj.finalize]
+  | cons p ps ih => intro o; simp [ih, HashObj.update, List.append_assoc]
+
+theorem hash_split (a : HashAlg) (m : Bytes) (i : Nat) :
+    (((HashObj.new a).update (m.take i)).update (m.drop i)).finalize c = getHash c a m := by
+  have := hash_stream_eq_oneshot (c := c) a [m.take i, m.drop i]
+  simpa using this
+
+/-- every member of the generated `EnumHashAlgorithm` has the digest length of its standard; `NONE` is refused -/
+theorem hash_enum_spec :
+    SymConsts.hashEnum.map (fun e => (e.2.2, getHashLength e.2.2)) =
+      [("sha1", .ok 20), ("sha256", .ok 32), ("sha384", .ok 48), ("sha512", .ok 64), ("md5", .ok 16), ("sm3", .ok 32),
+       ("none", .error .spsdk)] := by decide
+
+/-- the labels of the four modelled algorithms select exactly those algorithms -/
+theorem hash_enum_modelled : ∀ a : HashAlg, hashKindOfLabel a.name = some (.modelled a) := by
+  intro a; cases a <;> decide
+
+/-- RFC 2104 key normalisation: longer than a block → hashed first; shorter → zero padding is immaterial -/
+theorem hmac_key_normalisation (h : CryptoLaws c) (a : HashAlg) (k m : Bytes) :
+    (k.length > a.blockSize → hmac c a k m = hmac c a (c.hash a k) m) ∧
+    (∀ j, k.length + j ≤ a.blockSize → hmac c a (k ++ zeros j) m = hmac c a k m) :=
+  ⟨Crypto.hmac_long_key h a k m, fun j hj => Crypto.hmac_key_zero_pad a k m j hj⟩
+
+/-- HKDF: requested length honoured; shorter outputs are prefixes of longer ones; the first block is
+    HMAC(PRK, info ‖ 01); an empty salt means `HashLen` zero bytes (equivalently the empty HMAC key) -/
+theorem hkdf_structure (h : CryptoLaws c) (a : HashAlg) (salt ikm info : Bytes) (len len' : Nat) :
+    (hkdf c a salt ikm info len).length = len ∧
+    (len ≤ len' → hkdf c a salt ikm info len = (hkdf c a salt ikm info len').take len) ∧
+    (0 < len → len ≤ a.size →
+      hkdf c a salt ikm info len = (hmac c a (hkdfExtract c a salt ikm) (info ++ [1])).take len) ∧
+    hkdfExtract c a [] ikm = hmac c a (zeros a.size) ikm ∧ hkdfExtract c a [] ikm = hmac c a [] ikm :=
+  ⟨Crypto.hkdf_length h a salt ikm info len, Crypto.hkdf_prefix h a salt ikm info len len',
+   Crypto.hkdf_first_block a salt ikm info len, (Crypto.hkdfExtract_empty_salt a ikm).1,
+   (Crypto.hkdfExtract_empty_salt a ikm).2⟩
+
+/-- the SPSDK wrapper: exactly the lengths up to 255 blocks of SHA-256 are served, with exactly that many bytes -/
+theorem hkdfW_spec (h : CryptoLaws c) (salt ikm info : Bytes) (len : Nat) :
+    (len ≤ 255 * 32 → ∃ okm, hkdfW c salt ikm info len = .ok okm ∧ okm.length = len) ∧
+    (255 * 32 < len → hkdfW c salt ikm info len = .error .other) := by
+  have hs : hkdfAlg.size = 32 := by decide
+  constructor
+  · intro hl
+    refine ⟨_, by simp [hkdfW, hs, Nat.not_lt.mpr hl], Crypto.hkdf_length h _ salt ikm info len⟩
+  · intro hl; simp [hkdfW, hs, hl]
+
+/-- CMAC uses the right subkey: K1 = dbl(E_K(0¹²⁸)) on a complete last block, K2 = dbl(K1) on a padded one
+    (which includes the empty message) -/
+theorem cmac_subkeys (k m : Bytes) :
+    (∀ n, 0 < n → m.length = 16 * n →
+      cmac c k m = cbcMac (c.encBlk k) (m.take (16 * (n - 1)) ++
+        xorBytes (m.drop (16 * (n - 1))) (cmacDbl (c.encBlk k (zeros 16))))) ∧
+    ((m.length % 16 ≠ 0 ∨ m.length = 0) →
+      cmac c k m = cbcMac (c.encBlk k) (m.take (16 * (m.length / 16)) ++
+        xorBytes (m.drop (16 * (m.length / 16)) ++ [0x80] ++ zeros (15 - m.length % 16))
+          (cmacDbl (cmacDbl (c.encBlk k (zeros 16)))))) :=
+  ⟨fun n hn hm => Crypto.cmacWith_complete _ m n hn hm, fun hm => Crypto.cmacWith_partial _ m hm⟩
+
+/-- the SB3.1 derivation data EXECUTED from the source by the generator's AST interpreter on the whole finite
+    parameter domain equals the model, row by row (120 rows: accepted ones byte for byte, refused ones as SPSDKError) -/
+theorem sb31_kdf_table_agrees : ∀ r ∈ Sb31Kdf.table,
+    kdfData r.1 r.2.1 (if r.2.2.1 then .kdk else .blk) r.2.2.2.1 r.2.2.2.2.1 =
+      (match r.2.2.2.2.2 with
+       | some b => .ok b
+       | none => .error .spsdk) := by decide +kernel
+
+/-- `cmac_validate`/`hmac_validate` accept a tag computed for another message only if the MAC itself is broken -/
+theorem cmacValidate_sound (k m m' : Bytes) (hv : cmacValidate c k m' (cmac c k m) = .ok true) :
+    m' = m ∨ Break c := by
+  by_cases hm : m' = m
+  · exact Or.inl hm
+  · right
+    simp only [cmacValidate] at hv
+    split at hv
+    · cases hv
+    · exact Break.cmacForgery k m' m hm (by simpa using hv)
+
+theorem hmacValidate_sound (a : HashAlg) (k m m' : Bytes) (hv : hmacValidate c a k m' (hmac c a k m) = true) :
+    m' = m ∨ Break c := by
+  by_cases hm : m' = m
+  · exact Or.inl hm
+  · exact Or.inr (Break.hmacForgery a k m' m hm (by simpa [hmacValidate] using hv))
+
+/-- equal digests of different data are a collision -/
+theorem getHash_binding (a : HashAlg) (m m' : Bytes) (he : getHash c a m = getHash c a m') : m = m' ∨ Break c := by
+  by_cases hm : m = m'
+  · exact Or.inl hm
+  · exact Or.inr (Break.collision a m m' hm he)
+
+/-- a wrapped key unwraps under a different KEK only if RFC 3394's integrity check is broken -/
+theorem aesKeyUnwrap_wrong_kek (kek kek' p x : Bytes) (hu : aesKeyUnwrap c kek' (kwWrap c kek p) = .ok x) :
+    kek' = kek ∨ Break c := by
+  by_cases hk : kek' = kek
+  · exact Or.inl hk
+  · right
+    refine Break.wrapForgery kek kek' p (fun e => hk e.symm) ?_
+    simp only [aesKeyUnwrap] at hu
+    split at hu
+    · cases hu
+    · split at hu
+      · rename_i hs; simp [hs]
+      · cases hu
+
+/-- a CCM ciphertext is accepted under another nonce / associated data / after modification only if CCM is broken -/
+theorem aesCcmDecrypt_tamper (k n n' a a' m ct' x : Bytes) (t : Int)
+    (hd : aesCcmDecrypt c k ct' n' a' t = .ok x) :
+    (n', a', ct') = (n, a, ccmEnc c k n a t.toNat m) ∨ Break c := by
+  by_cases he : (n', a', ct') = (n, a, ccmEnc c k n a t.toNat m)
+  · exact Or.inl he
+  · right
+    refine Break.ccmForgery k n n' a a' t.toNat m ct' he ?_
+    simp only [aesCcmDecrypt] at hd
+    split at hd
+    · cases hd
+    · split at hd
+      · rename_i hs; simp [hs]
+      · cases hd
 
 /-! ## Part E — the laws are satisfiable: by the executable FIPS-197 AES / SM4 / SHA instance itself -/
 
